@@ -809,6 +809,11 @@ def run(ctx):
         pn = f.params[0]["name"]
         ctx.check(rets == ["%s.at(I)" % pn], "R06.4", f, "get-is-checked", "std::get<I> returns %s instead of the checked %s.at(I)" % (rets, pn), f)
     ctx.trust("std::unique_ptr<T[]> destroys every element exactly once (Appendix D.3)")
+    ctx.rule("R06.10", "a container built or filled FROM another range leaves that range's elements alone, and the bookkeeping members hold the full requested capacity (R07.6, R07.9 re-evaluated): "
+                       "a source emptied by a hidden move shows its owner slots it never stored")
+    if ctx.prop == "C06" and not getattr(ctx, "_sharing", False):
+        from .common import share
+        share(ctx, "C07", ("R07.6", "R07.9"), "R06.10", "forwarding / width obligations shared with C07", 4)
     ctx.assume("element-type behaviour (throwing copies/moves) is covered only through R06.5/R06.6's ordering argument")
 
 
